@@ -22,15 +22,16 @@ VARIABLES
   l,                  \* next record
   tp, cf, ifc, gv,    \* per notified object: [{"mon","mgr"} -> ...]  (see ChainView)
   phase,              \* "dead" | "idle" | "moving"
-  kind, histId, failTrig, baseConf, inputs, minDepth,
+  kind, histId, failTrig, baseConf, inputs, minDepth, tlOuts, tlHeight,
   readyAt,            \* blocks in which the funding had >= minDepth confirmations at a sync point
-  commitSeen,         \* a commitment transaction was on the best chain at a sync point
+  commitSeen,         \* the channel had to be given up at a sync point: a commitment transaction was on the
+                      \* best chain, or the funding had left the block in which it was deep enough to be used
   reloaded,           \* a restart happened in this run
   ever,               \* <<role, block>> that have been buried >= ARD at a sync point of this run
   over,               \* a role that was final has been reorganised away (beyond the property)
   v                   \* verdict of the last sync record
 
-tvars == <<hvars, target, l, tp, cf, ifc, gv, phase, kind, histId, failTrig, baseConf, inputs, minDepth, readyAt, commitSeen, reloaded,
+tvars == <<hvars, target, l, tp, cf, ifc, gv, phase, kind, histId, failTrig, baseConf, inputs, minDepth, tlOuts, tlHeight, readyAt, commitSeen, reloaded,
            ever, over, v>>
 
 Rec == ndJsonDeserialize(IOEnv.TRACE)
@@ -60,7 +61,7 @@ TraceInit ==
   /\ tp = [o \in Objs |-> 0] /\ cf = [o \in Objs |-> NoConf]
   /\ ifc = [o \in Objs |-> "none"] /\ gv = [o \in Objs |-> FALSE]
   /\ phase = "dead" /\ kind = "" /\ histId = 0 /\ failTrig = <<>> /\ baseConf = 0 /\ inputs = <<>>
-  /\ minDepth = 0 /\ readyAt = {} /\ commitSeen = FALSE
+  /\ minDepth = 0 /\ tlOuts = {} /\ tlHeight = 0 /\ readyAt = {} /\ commitSeen = FALSE
   /\ reloaded = FALSE /\ ever = {} /\ over = FALSE
   /\ v = AllGood
 
@@ -79,6 +80,7 @@ TReset ==
      /\ fundingRole' = r.funding_role
      /\ kind' = r.kind /\ histId' = r.hist
      /\ failTrig' = r.failtrig /\ baseConf' = r.base_conf /\ inputs' = r.inputs /\ minDepth' = r.min_depth
+     /\ tlOuts' = ToSet(r.tl_outs) /\ tlHeight' = r.tl_height
      /\ v' = AllGood
   /\ target' = 0
   /\ tp' = [o \in Objs |-> 0] /\ cf' = [o \in Objs |-> NoConf]
@@ -86,7 +88,7 @@ TReset ==
   /\ phase' = "idle" /\ reloaded' = FALSE /\ ever' = {} /\ over' = FALSE
   /\ readyAt' = {} /\ commitSeen' = FALSE
 
-Same == UNCHANGED <<hvars, kind, histId, failTrig, baseConf, inputs, minDepth, readyAt, commitSeen, ever, over>>
+Same == UNCHANGED <<hvars, kind, histId, failTrig, baseConf, inputs, minDepth, tlOuts, tlHeight, readyAt, commitSeen, ever, over>>
 
 TReload ==
   /\ IsEvent("reload") /\ phase = "idle"
@@ -146,9 +148,13 @@ TNote ==
 \* ---- judging a synchronisation point
 ConfirmedTx(t) == (t \in Roles /\ Place(t, target) # None) \/ (t = 5 /\ ~fundingRole)
 SpentInChain(op) == \E r \in Roles : Place(r, target) # None /\ \E i \in 1..Len(inputs[r]) : inputs[r][i] = op
-\* a claim (sequence of <<tx, vout>>) that can still confirm on the best chain
-Live(sig) == \A i \in 1..Len(sig) : ConfirmedTx(sig[i][1]) /\ ~SpentInChain(sig[i])
-LiveOf(s) == SelectSeq(s, Live)
+\* Claims are compared by WHAT is being claimed (how claims are aggregated into transactions and at
+\* which fee may differ): the outpoints, of all pending claim transactions, that can still be spent
+\* on the best chain.  A time-locked claim (HTLC timeout) counts only from the height at which it can be
+\* broadcast: below it, a claim made while the chain was higher may or may not still be pending.
+LiveOf(s) == {op \in UNION {ToSet(s[i]) : i \in 1..Len(s)} :
+                 /\ ConfirmedTx(op[1]) /\ ~SpentInChain(op)
+                 /\ op \in tlOuts => Height(target) >= tlHeight}
 Pairs(rel) == {<<rel[i][1], rel[i][2]>> : i \in 1..Len(rel)}
 
 \* a role that was final is still where it was but with fewer confirmations than ARD now
@@ -165,15 +171,16 @@ TSync ==
          c == IF kind = "sched" /\ hasCanon THEN Rec[CanonMap[<<histId, i>>]] ELSE r
          cmp == kind = "sched" /\ ~ov
          strictClaims == LiveOf(r.R.claims) = LiveOf(c.R.claims)
-         waivedClaims == ToSet(LiveOf(r.R.claims)) \subseteq ToSet(LiveOf(c.R.claims))
+         waivedClaims == LiveOf(r.R.claims) \subseteq LiveOf(c.R.claims)
          hasDirect == r.key \in DOMAIN DirectMap /\ kind # "direct" /\ ~ov /\ ~Shallower /\ ~reloaded
          d == IF hasDirect THEN Rec[DirectMap[r.key]] ELSE r
-         dClaims == ToSet(LiveOf(d.R.claims))
+         dClaims == LiveOf(d.R.claims)
      IN
      /\ over' = ov
      /\ ever' = ever \cup NowBuried
      /\ readyAt' = readyAt \cup (IF fundingRole /\ Depth(1, target) >= minDepth THEN {Place(1, target)} ELSE {})
-     /\ commitSeen' = (commitSeen \/ \E q \in SpendRoles : Place(q, target) # None)
+     /\ commitSeen' = (commitSeen \/ (\E q \in SpendRoles : Place(q, target) # None)
+                                   \/ (fundingRole /\ \E b \in readyAt : Place(1, target) # b))
      /\ (cmp /\ WaiveLostClaims /\ ~strictClaims /\ waivedClaims) => PrintT(<<"WAIVED", r.run, i>>)
      /\ v' = [hist |-> (kind = "sched" => hasCanon),
               best |-> (BestBlockIs(f.mbest) /\ BestBlockIs(f.gbest)),
@@ -198,10 +205,10 @@ TSync ==
                              /\ Pairs(f.mrel) = Pairs(d.f.mrel)
                              \* everything a fresh delivery of this chain claims is (again) being claimed; a
                              \* claim made while the chain was higher may legitimately still be pending
-                             /\ ((WaiveLostClaims /\ kind = "sched") \/ dClaims \subseteq ToSet(r.R.claims))
+                             /\ ((WaiveLostClaims /\ kind = "sched") \/ dClaims \subseteq LiveOf(r.R.claims))
                              /\ (r.R.chans # <<>> => (r.R.chans = d.R.chans /\ Pairs(f.grel) = Pairs(d.f.grel))))]
   /\ phase' = "idle"
-  /\ UNCHANGED <<hvars, target, tp, cf, ifc, gv, kind, histId, failTrig, baseConf, inputs, minDepth, reloaded>>
+  /\ UNCHANGED <<hvars, target, tp, cf, ifc, gv, kind, histId, failTrig, baseConf, inputs, minDepth, tlOuts, tlHeight, reloaded>>
 
 TraceNext == TReset \/ TReload \/ TBegin \/ TConn \/ TDisc \/ TTxs \/ TBest \/ TUnconf \/ TNote \/ TSync
 
